@@ -127,6 +127,7 @@ impl Prop for C08 {
           remove_original_source: *remove,
         }),
       };
+      let shared = mk_sms();
       let mk_custom = || CustomSource { text: t.clone(), map: Some(source_map(m)) };
       let (_, end) = positions(t);
       let mut mapped_any = false;
@@ -136,7 +137,8 @@ impl Prop for C08 {
         mapped_any |= want.iter().any(|a| a.is_some());
         unmapped_any |= want.iter().any(|a| a.is_none());
         // (1) normal mode
-        let st = stream(&mk_sms(), &opts(columns, false));
+        // (1) and (2) are asked of ONE object, all four modes in turn; the other routes build fresh ones
+        let st = stream(&shared, &opts(columns, false));
         let (stext, sat) = st.attr();
         if &stext != t {
           return Err(format!("columns={columns}: stream reassembles to {stext:?}, not {t:?}"));
@@ -167,7 +169,7 @@ impl Prop for C08 {
           }
         }
         // (2) final mode through the hook
-        let fs = stream(&mk_sms(), &opts(columns, true));
+        let fs = stream(&shared, &opts(columns, true));
         if fs.info != end {
           return Err(format!("columns={columns} final_source: end info {:?}, text ends at {end:?}", fs.info));
         }
